@@ -252,6 +252,10 @@ func Tokenize(pw string, ti Indices, entropy float32) (Password, error) {
 		return p, nil
 
 	case FullIndexKind:
+		if len(ti)%2 != 1 {
+			// every token needs both a length and a type byte
+			return p, fmt.Errorf("truncated full token index")
+		}
 		tokens := make([]Token, len(ti)/2)
 
 		prevPos := 0
